@@ -99,6 +99,115 @@ fn pair(k: &i64, v: &i64) -> i64 {
     k * 1000 + v
 }
 
+/// ordered by key only: equal keys are distinguishable by id
+#[derive(Clone, Copy, Debug)]
+struct Keyed {
+    key: i64,
+    id: usize,
+}
+impl PartialEq for Keyed {
+    fn eq(&self, o: &Self) -> bool {
+        self.key == o.key
+    }
+}
+impl Eq for Keyed {}
+impl PartialOrd for Keyed {
+    fn partial_cmp(&self, o: &Self) -> Option<std::cmp::Ordering> {
+        Some(self.cmp(o))
+    }
+}
+impl Ord for Keyed {
+    fn cmp(&self, o: &Self) -> std::cmp::Ordering {
+        self.key.cmp(&o.key)
+    }
+}
+
+fn pstr(p: Params) -> String {
+    format!("{:?}/{:?}", p.num_threads, p.chunk_size)
+}
+
+/// things the generated computations cannot express: items whose order ignores part of the value
+/// (which of several tied extrema the sequential terminal returns), computations built on a worker
+/// thread of another computation (defaults), cloned()/copied() with parameters set before them
+fn extras(data: &[i64], out: &mut Vec<String>) -> usize {
+    let mut n = 0;
+    let items: Vec<Keyed> = data.iter().enumerate().map(|(id, k)| Keyed { key: k.rem_euclid(4), id }).collect();
+    for cs in [0usize, 1, 2, 5] {
+        // sequential mode returns exactly what std returns (last maximum, first minimum)
+        let got = items.clone().into_par().num_threads(1).chunk_size(cs).max().map(|x| x.id);
+        let want = items.iter().cloned().max().map(|x| x.id);
+        n += 1;
+        if got != want {
+            out.push(format!("MISMATCH Keyed nt=1 cs={} term=seq.max got={:?} want={:?}", cs, got, want));
+        }
+        let got = items.clone().into_par().num_threads(1).chunk_size(cs).min().map(|x| x.id);
+        let want = items.iter().cloned().min().map(|x| x.id);
+        n += 1;
+        if got != want {
+            out.push(format!("MISMATCH Keyed nt=1 cs={} term=seq.min got={:?} want={:?}", cs, got, want));
+        }
+        let got = items.clone().into_par().num_threads(1).chunk_size(cs).min_by_key(|x| x.key).map(|x| x.id);
+        let want = items.iter().cloned().min_by_key(|x| x.key).map(|x| x.id);
+        n += 1;
+        if got != want {
+            out.push(format!("MISMATCH Keyed nt=1 cs={} term=seq.min_by_key got={:?} want={:?}", cs, got, want));
+        }
+    }
+    // defaults are Auto/Auto wherever the computation is built: here inside a closure that runs on the
+    // worker threads of another computation
+    let outer: Vec<usize> = (0..64).collect();
+    let reports: Vec<String> = outer
+        .par()
+        .num_threads(4)
+        .chunk_size(1)
+        .map(|_| {
+            let inner = data.par();
+            let a = pstr(inner.params());
+            let b = pstr(inner.map(|x| *x + 1).filter(|x| *x != 7).params());
+            format!("{}|{}", a, b)
+        })
+        .collect_vec();
+    let want = format!("{}|{}", pstr(Params::default()), pstr(Params::default()));
+    n += 1;
+    if let Some(bad) = reports.iter().find(|r| **r != want) {
+        out.push(format!("MISMATCH nested nt=4 cs=1 term=params.default got={} want={}", bad, want));
+    }
+    // cloned() / copied() are transformations: parameters set before them stay
+    let base = data.par().num_threads(3).chunk_size(5);
+    let want = pstr(base.params());
+    let base_seq = data.par().num_threads(1);
+    n += 4;
+    let got = pstr(data.par().num_threads(3).chunk_size(5).copied().params());
+    if got != want {
+        out.push(format!("MISMATCH par.copied nt=3 cs=5 term=params.copied got={} want={}", got, want));
+    }
+    let got = pstr(data.par().num_threads(3).chunk_size(5).cloned().params());
+    if got != want {
+        out.push(format!("MISMATCH par.cloned nt=3 cs=5 term=params.cloned got={} want={}", got, want));
+    }
+    let got = pstr(data.par().num_threads(3).chunk_size(5).map(|x| *x).copied_check());
+    let _ = got;
+    let got = pstr(data.par().num_threads(1).copied().params());
+    if got != pstr(base_seq.params()) {
+        out.push(format!("MISMATCH par.copied nt=1 cs=0 term=params.copied got={} want={}", got, pstr(base_seq.params())));
+    }
+    let got = pstr(data.par().map(|x| *x + 1).num_threads(2).chunk_size(7).filter(|x| *x > 0).params());
+    let want2 = pstr(data.par().num_threads(2).chunk_size(7).params());
+    if got != want2 {
+        out.push(format!("MISMATCH par.map.filter nt=2 cs=7 term=params.kept got={} want={}", got, want2));
+    }
+    n
+}
+
+trait CopiedCheck {
+    fn copied_check(self) -> Params;
+}
+impl<P: Par> CopiedCheck for P {
+    fn copied_check(self) -> Params {
+        self.params()
+    }
+}
+
 fn main() {
     let stdin = std::io::stdin();
     for line in stdin.lock().lines() {
@@ -222,7 +331,8 @@ fn main() {
             run!("BinaryHeap.par", bh.iter().cloned().collect(), || bh.par().map(|x| *x));
             run!("BinaryHeap.into_par", bh.clone().into_iter().collect(), || bh.clone().into_par());
         }
-        println!("seed={} n={} conversions={} mismatches={}", seed, n, checked, out.len());
+        let extra = extras(&data, &mut out);
+        println!("seed={} n={} conversions={} extras={} mismatches={}", seed, n, checked, extra, out.len());
         for o in out.iter().take(20) {
             println!("{}", o.replacen("MISMATCH ", &format!("MISMATCH seed={} n={} ", seed, n), 1));
         }
